@@ -36,7 +36,7 @@ func (impl Implementation) Dgelqf(m, n int, a []float64, lda int, tau, work []fl
 
 	k := min(m, n)
 	if k == 0 {
-		work[0] = 1
+		work[0] = float64(max(1, m))
 		return
 	}
 
